@@ -7,6 +7,14 @@ TRUST = ('rustc MIR construction + type checker (nightly 1.97), the mirfacts dri
          '(lint/extern_models.py), dependency crates not analysed; see DESIGN.md 2.1')
 
 CLAIMS = {
+ 'C12': dict(
+    text='Static: A the baseline path of halfpel_decode (if-converted, UMV tests false) has the decision structure in(m+p) ? m+p : invert(m)+p with range 32 and '
+         'offset 64 - compared with the written-out rule over all consistent truth assignments of its range tests (that this is reduction modulo 64 into [-32,31] '
+         'for operands in range is a three-line arithmetic argument, stated in DESIGN.md, not a machine step); B chroma rounding folded over every sum in '
+         '[-16384,16383] against the sixteenth-position table, and the sum of exactly mv[0..3]; C MVD_TABLE (folded from const MIR) against the 64 code words of '
+         'Table 14, HalfPel::from = floor(2x); D the three candidates selected in each of the 4 x 8 (block index, border class) cases incl. the neighbour block '
+         'indices; E median_of over all 13 weak orderings, component-wise for vectors; F zero candidates from intra / not-coded macroblocks.',
+    technique='if-conversion + canonical forms + decision-table comparison; constant folding over finite domains; const-table folding', ref='6/C12'),
  'C11': dict(
     text='Static, the whole quantizer x level domain at once: A the coefficient stored by inverse_rle has the canonical form of '
          'clamp(sgn(L)*(Q*(2|L|+1) - [Q even]), -2048, 2047) (equal as functions), depends only on L and Q, and is stored at block_data[zig_y][zig_x]; '
